@@ -425,3 +425,140 @@ Proof.
   assert (A : (k < Z.to_nat (Qceiling ((mx - mn) / dt)))%nat <-> (Z.of_nat k < Qceiling ((mx - mn) / dt))%Z) by lia.
   rewrite A, <- lt_ceiling_iff, lt_div_iff by assumption. split; intros; lra.
 Qed.
+
+(* ---------------- blocks in any order (sorted by interval first, 4e8ac11) ---------------- *)
+Lemma blocks_sentinels : forall l x, blocks_pairs l x = step_eval 0 (blocks_tv l) x.
+Proof.
+  intros l x. unfold blocks_pairs, step_eval. cbn [fold_left].
+  rewrite fold_left_app. cbn [fold_left]. unfold step1 at 1 3. cbn [fst snd xle]. reflexivity.
+Qed.
+
+Lemma key_le_true : forall p q, key_le p q = true ->
+  fst (fst p) < fst (fst q) \/ (fst (fst p) == fst (fst q) /\ snd (fst p) <= snd (fst q)).
+Proof.
+  intros p q H. unfold key_le in H. apply orb_true_iff in H. destruct H as [H|H].
+  - left. unfold Qlt_b in H. apply negb_true_iff in H. now apply Qle_bool_false.
+  - right. apply andb_true_iff in H. destruct H as [H1 H2]. split.
+    + now apply Qeq_bool_iff. + now apply Qle_bool_iff.
+Qed.
+
+Lemma key_le_false : forall p q, key_le p q = false ->
+  fst (fst q) <= fst (fst p) /\ ~ (fst (fst p) == fst (fst q) /\ snd (fst p) <= snd (fst q)).
+Proof.
+  intros p q H. unfold key_le in H. apply orb_false_iff in H. destruct H as [H1 H2]. split.
+  - unfold Qlt_b in H1. apply negb_false_iff in H1. now apply Qle_bool_iff.
+  - intros [E L]. apply andb_false_iff in H2. destruct H2 as [H2|H2].
+    + apply Qeq_bool_iff in E. congruence.
+    + apply Qle_bool_iff in L. congruence.
+Qed.
+
+Lemma insert_in : forall p l b, In b (insert_block p l) <-> b = p \/ In b l.
+Proof.
+  intros p l b; induction l as [|q r IH]; cbn [insert_block].
+  - cbn. intuition.
+  - destruct (key_le p q); cbn [In]; [intuition|]. rewrite IH. cbn [In]. intuition.
+Qed.
+
+Lemma sort_in : forall l b, In b (sort_blocks l) <-> In b l.
+Proof.
+  induction l as [|p l IH]; intros b; [reflexivity|].
+  change (sort_blocks (p :: l)) with (insert_block p (sort_blocks l)). rewrite insert_in, IH. cbn [In]. intuition.
+Qed.
+
+Lemma insert_sorted : forall p l,
+  fst (fst p) <= snd (fst p) -> Forall (disjoint2 p) l -> sorted_strong l ->
+  sorted_strong (insert_block p l).
+Proof.
+  intros p l Hp; induction l as [|q r IH]; intros D S.
+  - cbn. repeat split; [exact Hp|constructor].
+  - cbn [sorted_strong] in S. destruct S as [Hq [Fq Sr]].
+    inversion D as [|q' r' Dq Dr]; subst. cbn [insert_block].
+    destruct (key_le p q) eqn:K.
+    + apply key_le_true in K. cbn [sorted_strong].
+      assert (A : snd (fst p) <= fst (fst q)).
+      { unfold disjoint2 in Dq. destruct Dq as [Dq|Dq]; [exact Dq|]. destruct K as [K|[K1 K2]]; lra. }
+      split; [exact Hp|]. split; [|split; [exact Hq|split; [exact Fq|exact Sr]]].
+      constructor; [exact A|]. apply Forall_forall. intros s Hs.
+      rewrite Forall_forall in Fq. specialize (Fq s Hs). lra.
+    + apply key_le_false in K. destruct K as [K1 K2]. cbn [sorted_strong].
+      split; [exact Hq|]. split; [|now apply IH].
+      apply Forall_forall. intros s Hs. apply (proj1 (insert_in p r s)) in Hs. destruct Hs as [->|Hs].
+      * unfold disjoint2 in Dq. destruct Dq as [Dq|Dq]; [|exact Dq].
+        destruct (Qlt_le_dec (snd (fst q)) (snd (fst p))) as [L|L]; [lra|].
+        exfalso. apply K2. split; lra.
+      * rewrite Forall_forall in Fq. now apply Fq.
+Qed.
+
+Lemma disjoint2_sym : forall p q, disjoint2 p q -> disjoint2 q p.
+Proof. intros p q [H|H]; [right|left]; exact H. Qed.
+
+Lemma sort_sorted : forall l, pairwise_disjoint l -> sorted_strong (sort_blocks l).
+Proof.
+  induction l as [|p l IH]; intros H; [exact I|].
+  cbn [pairwise_disjoint] in H. destruct H as [Hp [D P]].
+  change (sort_blocks (p :: l)) with (insert_block p (sort_blocks l)). apply insert_sorted; [exact Hp| |now apply IH].
+  apply Forall_forall. intros b Hb. apply (proj1 (sort_in l b)) in Hb. rewrite Forall_forall in D. now apply D.
+Qed.
+
+Lemma strong_sorted_blocks : forall l lo, sorted_strong l ->
+  (forall b, In b l -> lo <= fst (fst b)) -> sorted_blocks lo l.
+Proof.
+  induction l as [|[[a b] amp] l IH]; intros lo S B; [exact I|].
+  cbn [sorted_strong fst snd] in S. destruct S as [H1 [F S]]. cbn [sorted_blocks].
+  split; [apply (B (a, b, amp)); now left|]. split; [exact H1|].
+  apply IH; [exact S|]. intros q Hq. rewrite Forall_forall in F. now apply F.
+Qed.
+
+Lemma strong_sorted_blocks_ex : forall l, sorted_strong l -> exists lo, sorted_blocks lo l.
+Proof.
+  intros [|p l] S; [exists 0; exact I|]. exists (fst (fst p)).
+  apply strong_sorted_blocks; [exact S|]. intros b [<-|Hb]; [lra|].
+  cbn [sorted_strong] in S. destruct S as [H1 [F _]]. rewrite Forall_forall in F. specialize (F b Hb). lra.
+Qed.
+
+Lemma in_block_iff : forall x b, in_block x b = true <-> fst (fst b) <= x /\ x < snd (fst b).
+Proof.
+  intros x b. unfold in_block. rewrite andb_true_iff, negb_true_iff. split; intros [H1 H2]; split.
+  - now apply Qle_bool_iff. - now apply Qle_bool_false.
+  - now apply Qle_bool_iff. - now apply Qle_bool_false_intro.
+Qed.
+
+Lemma lookup_sorted_unique : forall x l b, sorted_strong l -> In b l -> in_block x b = true ->
+  block_lookup l x = snd b.
+Proof.
+  intros x l b; induction l as [|q r IH]; intros S Hin Hb; [contradiction|].
+  cbn [sorted_strong] in S. destruct S as [Hq [F S]]. unfold block_lookup. cbn [find].
+  destruct (in_block x q) eqn:Eq.
+  - destruct Hin as [->|Hin]; [reflexivity|]. exfalso.
+    rewrite Forall_forall in F. specialize (F b Hin).
+    apply in_block_iff in Eq. apply in_block_iff in Hb. lra.
+  - destruct Hin as [->|Hin]; [congruence|]. now apply IH.
+Qed.
+
+Lemma lookup_all_false : forall x l, (forall b, In b l -> in_block x b = false) -> block_lookup l x = 0.
+Proof.
+  intros x l H. unfold block_lookup. destruct (find (in_block x) l) eqn:E; [|reflexivity].
+  apply find_some in E. destruct E as [E1 E2]. rewrite (H _ E1) in E2. discriminate.
+Qed.
+
+Lemma blocks_any_order : forall l x, pairwise_disjoint l ->
+  blocks_sorted_pairs l x = block_lookup l x.
+Proof.
+  intros l x P. unfold blocks_sorted_pairs.
+  pose proof (sort_sorted l P) as S. destruct (strong_sorted_blocks_ex _ S) as [lo SB].
+  rewrite (blocks_value_sorted _ lo x SB).
+  unfold block_lookup at 2. destruct (find (in_block x) l) eqn:E.
+  - apply find_some in E. destruct E as [E1 E2].
+    apply lookup_sorted_unique; [exact S|now apply (proj2 (sort_in l b))|exact E2].
+  - apply lookup_all_false. intros b Hb. apply (proj1 (sort_in l b)) in Hb. now apply (find_none _ _ E).
+Qed.
+
+(* at most one listed block contains x *)
+Lemma disjoint_unique : forall l x b, pairwise_disjoint l -> In b l -> in_block x b = true ->
+  block_lookup l x = snd b.
+Proof.
+  intros l x b P Hin Hb. rewrite <- (blocks_any_order l x P). unfold blocks_sorted_pairs.
+  pose proof (sort_sorted l P) as S. destruct (strong_sorted_blocks_ex _ S) as [lo SB].
+  rewrite (blocks_value_sorted _ lo x SB).
+  apply lookup_sorted_unique; [exact S|now apply (proj2 (sort_in l b))|exact Hb].
+Qed.
